@@ -173,6 +173,15 @@ func sigOf(evs []evRec, keys [][2]string) string {
 	return strings.Join(r, " ")
 }
 
+// waitDone waits for a Done() channel under a watchdog and reports a timeout as a record of its own.
+func waitDone(w *ndWriter, pkg, what string, ch <-chan struct{}) {
+	select {
+	case <-ch:
+	case <-time.After(5 * time.Second):
+		w.write2(fmt.Sprintf(`{"k":"typed.error","pkg":%q,"err":%q}`, pkg, what+" did not stop within 5 s of Close()"))
+	}
+}
+
 func typedMain(args []string) int {
 	fs := flag.NewFlagSet("typed", flag.ExitOnError)
 	out := fs.String("out", "", "output ndjson file")
@@ -443,9 +452,9 @@ func runTypedScenario(w *ndWriter, p typedPkg, seed int64) {
 		time.Sleep(5 * time.Millisecond)
 	}
 	if mon != nil {
-		<-mon.Done()
+		waitDone(w, p.name, "typed monitor", mon.Done())
 	}
-	<-umon.Done()
+	waitDone(w, p.name, "untyped monitor", umon.Done())
 	emit("closed")
 	cancel()
 	for i := 0; i < 400; i++ {
@@ -521,9 +530,9 @@ func runTypedMonitor(w *ndWriter, p typedPkg, seed int64) {
 	}
 	quiet := quiesce(theTracer, 3*time.Second)
 	mon.Close()
-	<-mon.Done()
+	waitDone(w, p.name, "typed monitor", mon.Done())
 	call(tc, "Close")
-	<-chanOf(call(tc, "Done")[0])
+	waitDone(w, p.name, "typed controller", chanOf(call(tc, "Done")[0]))
 	mu.Lock()
 	sq := "[" + strings.Join(seq, ",") + "]"
 	mu.Unlock()
@@ -582,7 +591,7 @@ func runTypedOverflow(w *ndWriter, p typedPkg, seed int64) {
 	mu.Unlock()
 	w.write2(fmt.Sprintf(`{"k":"typed.overflow","pkg":%q,"quiet":%v,"published":%d,"buf":%d,"healthy":%s,"stalled":%s}`, p.name, quiet, total, kcache.EventBufsiz, he, evsJSONT(sev)))
 	call(tc, "Close")
-	<-chanOf(call(tc, "Done")[0])
+	waitDone(w, p.name, "typed controller", chanOf(call(tc, "Done")[0]))
 	cancel()
 	for i := 0; i < 400; i++ {
 		if n, _ := libGoroutineCount(); n == 0 {
